@@ -262,6 +262,14 @@ SPECS["C03"] = dict(
         ]) for tg in ["", "poll_opt,gc_opt"]],
 )
 
+VSHIM = "github.com/panjf2000/gnet/v2/internal/vshim/vunix"
+VSHIM_MAP = ",".join("unix.%s=%s" % (f, VSHIM) for f in ["Read", "Write", "Writev", "Close", "Accept4", "EpollCtl", "EpollWait", "Recvfrom", "Sendto", "Send"])
+SHIM_INSTR = [
+    ["-map", VSHIM_MAP, "connection_unix.go", "eventloop_unix.go", "acceptor_unix.go", "pkg/io/io_linux.go", "pkg/socket/sock_cloexec.go", "pkg/netpoll/poller_epoll_default.go"],
+    ["-map", VSHIM_MAP, "-ident", "epollCtl=vEpollCtlF,epollWait=vEpollWaitF", "pkg/netpoll/poller_epoll_ultimate.go"],
+]
+
+SHIM_OVERLAY = ["internal/vshim", "pkg/netpoll/zz_verif_vshim_poll_opt.go"]
 FX_OVERLAY = ["verifx/fx", "verifx/vio"]
 ENGINE_ASSUME = ["loop-back TCP / Unix sockets on this machine; kernel segmentation is whatever the kernel does (the oracles hold for any segmentation)",
                  "a liveness clause is judged by the stall rule: no progress for 8 s on an otherwise idle engine, confirmed by re-running the same case"]
@@ -280,7 +288,8 @@ SPECS["C01"] = dict(
          "inside every callback: buffered bytes = stream[consumed:], consumed+InboundBuffered is conserved by every operation, never decreases and never exceeds what the peer sent; at OnClose after an orderly close everything sent was consumed or readable; "
          "non-trivial = a connection on which a callback left bytes unconsumed that a later callback (with new data) saw (leftover/stitching path); distinct = distinct (configuration, connection script)",
     assumptions=ENGINE_ASSUME,
-    overlay=["verifx/c01"] + FX_OVERLAY,
+    overlay=["verifx/c01"] + FX_OVERLAY + SHIM_OVERLAY,
+    instrument=SHIM_INSTR,
     max_parallel=12,
     jobs=engine_jobs("c01", "./verifx/c01", [
         dict(id="sessions", run="^TestC01Sessions$", quick=dict(shards=6, checks=400, timeout=400, shrinktime=30), thorough=dict(shards=4, checks=15000, timeout=3000, shrinktime=300)),
@@ -295,7 +304,8 @@ SPECS["C02"] = dict(
          "'do not read until OutboundBuffered >= x'; oracle: what the peer receives equals the concatenation of accepted records in the order they took effect on the loop; inside callbacks 0 <= OutboundBuffered <= accepted - received by the peer and 0 once everything arrived; "
          "everything accepted arrives while the peer reads (stall rule); non-trivial = a connection on which OutboundBuffered > 0 was observed inside a callback (real back-pressure); distinct = distinct (configuration, connection script)",
     assumptions=ENGINE_ASSUME + ["async writes are always issued with a callback (the callback position defines when the write took effect)"],
-    overlay=["verifx/c02"] + FX_OVERLAY,
+    overlay=["verifx/c02"] + FX_OVERLAY + SHIM_OVERLAY,
+    instrument=SHIM_INSTR,
     max_parallel=12,
     jobs=engine_jobs("c02", "./verifx/c02", [
         dict(id="sessions", run="^TestC02Sessions$", quick=dict(shards=6, checks=60, timeout=600, shrinktime=30), thorough=dict(shards=4, checks=2500, timeout=3400, shrinktime=300)),
@@ -394,13 +404,6 @@ SPECS["C05"] = dict(
         dict(id="race", run="^TestC05RaceAndConfinement$", quick=dict(shards=4, checks=80, timeout=600, shrinktime=20, env={"GOMAXPROCS": 8}), thorough=dict(shards=4, checks=400, timeout=3400, shrinktime=120, env={"GOMAXPROCS": 8})),
     ]) for tg in ["", "poll_opt,gc_opt"]],
 )
-
-VSHIM = "github.com/panjf2000/gnet/v2/internal/vshim/vunix"
-VSHIM_MAP = ",".join("unix.%s=%s" % (f, VSHIM) for f in ["Read", "Write", "Writev", "Close", "Accept4", "EpollCtl", "EpollWait", "Recvfrom", "Sendto", "Send"])
-SHIM_INSTR = [
-    ["-map", VSHIM_MAP, "connection_unix.go", "eventloop_unix.go", "acceptor_unix.go", "pkg/io/io_linux.go", "pkg/socket/sock_cloexec.go", "pkg/netpoll/poller_epoll_default.go"],
-    ["-map", VSHIM_MAP, "-ident", "epollCtl=vEpollCtlF,epollWait=vEpollWaitF", "pkg/netpoll/poller_epoll_ultimate.go"],
-]
 
 SPECS["C18"] = dict(
     level="fault_enumeration",
